@@ -399,6 +399,7 @@ func driveC13(c *h.Ctx) error {
 				}
 			}
 		}
+		c.Current(map[string]any{"cmask": cs.cmask, "smask": cs.smask, "beh": cs.beh, "enf": enfIdx, "behaviour": cs.Behav, "history": cs.hist})
 		obs := runC13(cs, c.Rng.Fork(uint64(i)))
 		key := fmt.Sprintf("%d/%d/%d/%d/%d", cs.cmask, cs.smask, cs.beh, enfIdx, cs.hist)
 		c.Eval(key, !(cs.cmask == 31 && cs.smask == 31))
